@@ -17,6 +17,8 @@ def ensure(name, ctx):
         all_specs = None
         last = None
         for attempt in range(4):
+            import extract as _ex
+            catgen.GENERIC_ERR = catgen.discover_generic_err(_ex.REPO)
             src, specs, ranges = catgen.generate(tier, seed, exclude=set(excluded))
             if all_specs is None:
                 all_specs = {s["name"]: s for s in specs}
